@@ -299,7 +299,8 @@ class SdkRun:
             try:
                 self.top(it)
             except Exception as ex:       # the SDK itself raised while building
-                self.error = f"{type(ex).__name__}: {ex}"[:300]
+                ctx = ex.__context__ or ex.__cause__
+                self.error = (f"{type(ex).__name__}: {ex}" + (f" (while handling {type(ctx).__name__}: {ctx})" if ctx is not None else ""))[:300]
                 break
         # arrays of later flushes do not exist at earlier flushes: pad observations to the final address list
         for o in self.obs:
